@@ -21,7 +21,9 @@ pub fn install() {
         if let Ok(mut g) = WORKER.lock() {
             // keep the FIRST panic under /repo since the last take (later ones are usually consequences,
             // e.g. the RecvError unwrap in spawn_cpu after the worker died)
-            if loc.contains("/repo/") && g.is_none() {
+            // (panics inside arrow / std reached from Lance's worker threads count as well; a location under
+            // /repo replaces an earlier foreign one only if nothing under /repo was seen yet)
+            if g.is_none() {
                 *g = Some((msg.clone(), loc.clone()));
             }
         }
@@ -100,7 +102,8 @@ pub fn run_attributed<T>(mut f: impl FnMut() -> Result<T, String>) -> Result<T, 
 
 /// "<file>.rs:<line>" of the first location under /repo mentioned in an error text
 pub fn repo_location(t: &str) -> Option<String> {
-    let p = t.find("/repo/")?;
+    // prefer a location under /repo, else the first absolute source path mentioned
+    let p = t.find("/repo/").or_else(|| t.find("/root/.cargo/")).or_else(|| t.find("/rustc/"))?;
     let rest = &t[p..];
     let end = rest.find(|c: char| c.is_whitespace() || c == ',' || c == ';').unwrap_or(rest.len());
     let mut it = rest[..end].rsplit('/').next()?.split(':');
